@@ -339,3 +339,40 @@ func TestRunOne(t *testing.T) {
 	fmt.Printf("alternatives by kind: %v\n", kinds)
 	exitCode = 0
 }
+
+// TestRace is the auxiliary free-running pass of C18: the bodies of the
+// concurrency scenarios run with the scheduler absent in a binary built with
+// -race. It enumerates nothing; a race report is a genuine finding (the
+// detector has no false positives), silence is weak evidence.
+func TestRace(t *testing.T) {
+	if os.Getenv("VERIF_RACE") == "" {
+		t.Skip()
+	}
+	theT = t
+	reps, _ := strconv.Atoi(os.Getenv("VERIF_RACE_REPS"))
+	if reps == 0 {
+		reps = 20
+	}
+	scenarios := []string{
+		"coincide/N=2", "coincide/N=2/at=1999ms", "coincide/N=2/at=2001ms", "coincide/N=1",
+		"ticker2", "tm3", "close/N=2/k=2", "uni/N=2/k=5/ka=2s,1s",
+	}
+	runs := 0
+	for _, sn := range scenarios {
+		for i := 0; i < reps; i++ {
+			sc := Build(sn)
+			var w *World
+			x := vrt.RunFree(t, sc.Cfg, func(s *vrt.Sched) vrt.Env {
+				w = newWorld(s, sc)
+				return w
+			})
+			runs++
+			for _, p := range x.Panics {
+				fmt.Printf("RACEPASS-PANIC scenario=%s thread=%s %s\n", sn, p.Thread, p.Value)
+			}
+			_ = w
+		}
+	}
+	fmt.Printf("RACEPASS runs=%d scenarios=%d\n", runs, len(scenarios))
+	exitCode = 0
+}
